@@ -50,6 +50,9 @@ pub struct Case {
     /// a second failure later in the stream (checks "first")
     pub second: Option<Fault>,
     pub container: Container,
+    /// number of -v flags (0 = default verbosity); the skip accounting must not depend on it
+    #[serde(default)]
+    pub verbosity: u8,
 }
 
 pub struct C10;
@@ -235,6 +238,7 @@ impl Prop for C10 {
             positions,
             second,
             container,
+            verbosity: *rng.pick(&[0u8, 0, 1, 2]),
         }
     }
 
@@ -249,6 +253,8 @@ impl Prop for C10 {
             Positions::List(l) => l.iter().copied().filter(|&i| i < n).collect(),
         };
         let positions = if case.fault == Fault::None { vec![0] } else { positions };
+        l1::set_verbosity(case.verbosity);
+        out.count(&format!("verbosity.{}", case.verbosity), 1);
         for &i in &positions {
             if case.l2 {
                 run_l2_at(case, i, ctx, &mut out);
@@ -256,6 +262,7 @@ impl Prop for C10 {
                 run_l1_at(case, i, &mut out);
             }
         }
+        l1::set_verbosity(2);
         out
     }
 
@@ -300,6 +307,9 @@ impl Prop for C10 {
             c.project = None;
             v.push(Case { cfg: c, ..case.clone() });
         }
+        if case.verbosity != 0 {
+            v.push(Case { verbosity: 0, ..case.clone() });
+        }
         if case.callset.extra_info {
             let mut cs = case.callset.clone();
             cs.extra_info = false;
@@ -317,7 +327,7 @@ impl Prop for C10 {
             "records": case.callset.recs.len(), "samples": case.callset.samples.len(),
             "config": case.cfg, "fault": format!("{:?}", case.fault), "second_fault": format!("{:?}", case.second),
             "fault_positions": match &case.positions { Positions::All => "every record index".to_string(), Positions::List(l) => format!("{l:?}") },
-            "container": case.container.name(),
+            "container": case.container.name(), "verbosity_flags": case.verbosity,
             "first_record": case.callset.recs.first().map(|r| case.callset.rec_text(r)),
         })
     }
@@ -669,14 +679,14 @@ fn parse_skipped(stderr: &str) -> (Option<(usize, usize)>, Vec<String>) {
     (summary, sites)
 }
 
-fn l2_create(ctx: &mut Ctx, cfg: &Config, bytes: &[u8], plan: Option<Plan>, verbose: bool) -> ChildResult {
+fn l2_create(ctx: &mut Ctx, cfg: &Config, bytes: &[u8], plan: Option<Plan>, verbose: u8) -> ChildResult {
     let mut args = vec!["create".to_string()];
     args.extend(cfg.cli_args());
     if cfg.project.is_some() {
         args.push("--precision".into());
         args.push("12".into());
     }
-    if verbose {
+    for _ in 0..verbose {
         args.push("-v".into());
     }
     args.push("@DIR@/in.dat".into());
@@ -703,7 +713,7 @@ fn run_l2_at(case: &Case, i: usize, ctx: &mut Ctx, out: &mut Outcome) {
         out.count("fault_not_applicable", 1);
         return;
     };
-    let r = l2_create(ctx, &cfg, &bytes, plan, true);
+    let r = l2_create(ctx, &cfg, &bytes, plan, case.verbosity);
     out.evals += 1;
     out.count("l2.runs", 1);
     out.steps += r.events.len() as u64 + cs.recs.len() as u64;
@@ -775,7 +785,7 @@ fn run_l2_at(case: &Case, i: usize, ctx: &mut Ctx, out: &mut Outcome) {
             if cfg.strict {
                 let mut c2 = cfg.clone();
                 c2.strict = false;
-                let relaxed = l2_create(ctx, &c2, &bytes, None, true);
+                let relaxed = l2_create(ctx, &c2, &bytes, None, case.verbosity);
                 out.evals += 1;
                 out.count("l2.runs", 1);
                 let (_, rsk) = parse_skipped(&relaxed.stderr_text());
